@@ -32,7 +32,9 @@ BENIGN_WORDS = ["x", "in.txt", "out_1", "7", "a-b", "$HOME", "*.nii", "a;b", "k=
 NASTY = " \t'\"\\$*;[],"
 NASTY_WORDS = ["a b", "it's", 'say "hi"', "back\\slash", "tab\there", "a  b", " lead", "trail ", "'q'", '"q"', "\\", "'", '"',
                "a\\ b", "$(x) `y`", "*?;|&", "a[,b", "[ x ]", ",]", "[,", "x,]y", "é è", "日 本", "a\nb", "new\n", "'a'\n",
-               "\"x", "x'", "a'b'c", "''", '""', "\\'", "\\\"", "a\\", "a\x0bb", "\x1fa", "a\x1c"]
+               "\"x", "x'", "a'b'c", "''", '""', "\\'", "\\\"", "a\\", "a\x0bb", "\x1fa", "a\x1c",
+               # tokens that still carry an outer quote pair after shlex (split_cmd's regular expression strips it)
+               "\"'x y'\"", "\\\"z\\\"", "'\"a\"'", "\\'k\\'", "\"'n'\n\""]
 BRACE_WORDS = ["{", "}", "a{b", "{x}", "{{", "}}", "{}", "a}b", "{a}}", "{{a}}", "{zz}", "}{"]
 
 
@@ -124,7 +126,9 @@ def gen_positions(rng, n, mode=None):
     return pos, mode
 
 
-def gen_definition(rng, max_fields=6, form=None, pos_mode=None, kinds=None):
+def gen_definition(rng, max_fields=6, form=None, pos_mode=None, kinds=None, file_dir=None):
+    """file_dir: when given, about a third of the path-valued fields become fileformats File fields whose values are
+    existing files created under that directory (the caller removes it)"""
     n = rng.choice([0, 1, 2, 2, 3, 3, 4, 5, max_fields])
     names = rng.sample(NAMES, n)
     kinds = kinds or ["bool", "str", "str", "int", "float", "path", "list", "list", "multi"]
@@ -136,13 +140,15 @@ def gen_definition(rng, max_fields=6, form=None, pos_mode=None, kinds=None):
         others = [f["name"] for f in fields if f["ty"] in ("str", "int")]
         f = {"name": nm, "ty": ty, "elem": elem, "optional": ty != "bool" and rng.random() < 0.6,
              "argstr": gen_argstr(rng, ty, nm, others), "pos": pos[i],
-             "sep": rng.choice(SEPS) if ty in ("list", "multi") else " ", "file": False}
+             "sep": rng.choice(SEPS) if ty in ("list", "multi") else " ",
+             "file": bool(file_dir) and (ty == "path" or elem == "path") and rng.random() < 0.35}
         if ty == "list" and has_placeholder(f) and not f["argstr"]["dots"] and f["sep"] == " ":
             # a blank-joined list inside a templated argument has no agreed reading (see design/C22.md): not generated
             f["sep"] = rng.choice([",", ";", ":", "+"])
         fields.append(f)
     form = form or ("class" if rng.random() < 0.2 else "functional")
-    return {"form": form, "exe": "echo", "fields": fields, "values": {}, "append": [], "pos_mode": mode}
+    return {"form": form, "exe": "echo", "fields": fields, "values": {}, "append": [], "pos_mode": mode,
+            "file_dir": file_dir}
 
 
 def gen_atom(rng, kind, nasty=0.0, braces=0.0, falsy=0.0):
@@ -178,6 +184,16 @@ def gen_values(rng, case, nasty=0.0, braces=0.0, falsy=0.05, unset=0.3):
         else:
             templ = bool(f["argstr"]) and any(p[0] != "lit" for w in f["argstr"]["words"] for p in w)
             vals[f["name"]] = gen_atom(rng, ty, nasty, braces if templ else 0.0, falsy)
+    for f in case["fields"]:
+        v = vals.get(f["name"])
+        if f.get("file") and v is not None:
+            atoms = v["list"] if isinstance(v, dict) else [v]
+            for a in atoms:
+                name = a[1].replace("/", "_").replace("\x00", "")
+                if name in ("", ".", ".."):
+                    name = "f"
+                a[1] = os.path.join(case["file_dir"], name)
+    ensure_files(case, vals)
     case["values"] = vals
     r = rng.random()
     if r < 0.5:
@@ -189,6 +205,20 @@ def gen_values(rng, case, nasty=0.0, braces=0.0, falsy=0.05, unset=0.3):
     if rng.random() < 0.15:
         case["exe"] = rng.choice([["docker", "run"], ["env", "-i", "prog"], "my prog" if nasty else "prog", ["p"]])
     return case
+
+
+def ensure_files(case, vals=None):
+    """create the (empty) files that File-typed fields point to -- only under /tmp/verif-*"""
+    vals = case["values"] if vals is None else vals
+    for f in case["fields"]:
+        v = vals.get(f["name"])
+        if not f.get("file") or v is None:
+            continue
+        for a in (v["list"] if isinstance(v, dict) else [v]):
+            if a[0] == "path" and a[1].startswith("/tmp/verif-"):
+                os.makedirs(os.path.dirname(a[1]), exist_ok=True)
+                if not os.path.exists(a[1]):
+                    open(a[1], "w").close()
 
 
 # ------------------------------------------------------------------ rendering (what pydra is given)
@@ -306,6 +336,7 @@ def observe(case):
     from pydra.environments import base, native
     from pydra.utils.general import get_fields, attrs_values
     out = {"positions": None, "argv": None, "error": None, "stage": None, "cmdline": None, "cmdline_error": None}
+    ensure_files(case)
     try:
         defn = build(case)
     except Exception as e:  # noqa
